@@ -112,6 +112,8 @@ fn valid_message(rng: &mut Rng, kind: usize) -> Vec<u8> {
 }
 
 pub async fn run(out: &mut Out) {
+    // "or stop it from serving other connections": clients stalled at every handshake stage of every listener
+    super::stall::stall_matrix(out, "C05").await;
     let mut rng = Rng(out.seed() ^ 0xC05);
     let thorough = out.tier_thorough();
     let nk = 12;
